@@ -16,6 +16,10 @@ def mk_spec(tier, variant=0):
     if variant == 0:
         sp = NB.Spec(nloc=2, types=[dict(cap=5, seats=7, limit='sym')], depots=[dict(allowed={0: 'sym'})], trips=[dict(vt=0, limit='sym') for _ in range(3)], maint=1,
                      level='listed', maxdist='sym', paxmax=12, capmax=2)
+    elif variant == 3:
+        # lean variant of 0: depot capacity fixed (2, no per-type cap), no formation limits - fewer case distinctions per spawn
+        sp = NB.Spec(nloc=2, types=[dict(cap=5, seats=7, limit=None)], depots=[dict(cap=2, allowed={0: 'none'})], trips=[dict(vt=0) for _ in range(3)], maint=1,
+                     level='listed', maxdist='sym', paxmax=12, capmax=2)
     elif variant == 2:
         # two types, one depot, one trip per type: type-compatibility scripts
         sp = NB.Spec(nloc=2, types=[dict(cap=5, seats=7, limit=None), dict(cap=11, seats=3, limit=None)], depots=[dict(allowed={0: 'none', 1: 'none'})],
@@ -337,7 +341,7 @@ PREFIX = {'C11': ('candidate',), 'C09': ('aggregate',), 'C10': ('invariant',), '
 def _cache_key(args):
     import hashlib, glob
     from .. import build
-    h = hashlib.sha256(build.src_hash(['model', 'solution']).encode())
+    h = hashlib.sha256(build.src_hash(['model', 'solution', 'solver']).encode())
     for f in sorted(glob.glob(os.path.join(build.VERIF, 'mirsym', '*.py')) + glob.glob(os.path.join(build.VERIF, 'mirsym', '*', '*.py')) + glob.glob(os.path.join(build.VERIF, 'replay', 'src', '*.rs'))):
         h.update(open(f, 'rb').read())
     h.update(json.dumps(args, sort_keys=True, default=str).encode())
@@ -518,7 +522,8 @@ SWAP_BASES = [
     (0, [('spawn', 0, [4]), ('spawn', 0, [7])]),
     (0, [('spawn', 0, [4]), ('to_dummy', 'veh_0'), ('spawn', 0, [5])]),
     (0, [('spawn', 0, [4, 5])]),
-    (0, [('spawn', 0, [4, 5]), ('to_dummy', 'veh_0'), ('spawn', 0, [6])]),       # a dummy tour with two trips as provider
+    (3, [('spawn', 0, [4, 5]), ('to_dummy', 'veh_0'), ('spawn', 0, [6])]),       # a dummy tour with two trips as provider (lean instance)
+    (3, [('spawn', 0, [4]), ('spawn', 0, [5])]),                                  # two vehicles (lean instance)
 ]
 SWAP_BASES2 = [
     (0, [('spawn', 0, [4]), ('spawn', 0, [4]), ('spawn', 0, [7])]),
@@ -529,7 +534,7 @@ ALLK = ['swap_spawn_maint', 'swap_path_exchange', 'swap_hitch', 'swap_remove_sin
 NOMAINT = ['swap_path_exchange', 'swap_hitch', 'swap_remove_single']
 def swap_jobs(tier, seed, props):
     js = []
-    if tier == 'quick': plan = [(0, ALLK), (1, NOMAINT), (2, ALLK), (3, NOMAINT), (5, dict(kinds=['swap_path_exchange'], provider='dummy'))]
+    if tier == 'quick': plan = [(0, ALLK), (6, NOMAINT), (2, ALLK), (3, NOMAINT), (5, dict(kinds=['swap_path_exchange'], provider='dummy'))]
     else: plan = [(k, ALLK) for k in range(len(SWAP_BASES + SWAP_BASES2))]
     bases = SWAP_BASES + SWAP_BASES2
     for k, kinds in plan:
